@@ -718,4 +718,18 @@ theorem fresh_keys_structure :
     "hmac.New" ∉ O4.Facts.Obfs4.Transport_ServerFactory_calls := by
   decide
 
+/-- **where the client's handshake timeout lives (go/ast call sets, regenerated on every run)**:
+    `newObfs4ClientConn` arms and clears the 60 s deadline itself (`conn.SetDeadline` before and
+    after `c.clientHandshake`), and `clientHandshake` — whose several return paths depend on how
+    the server's flight was segmented — never touches a deadline; so every successful `Dial`
+    leaves the connection without a deadline, whatever the chunking (the harness checks exactly
+    that on every successful `Dial`: no deadline half armed). -/
+theorem client_deadline_structure :
+    "conn.SetDeadline" ∈ O4.Facts.Obfs4.func_newObfs4ClientConn_calls ∧
+    "c.clientHandshake" ∈ O4.Facts.Obfs4.func_newObfs4ClientConn_calls ∧
+    "Conn.SetDeadline" ∉ O4.Facts.Obfs4.obfs4Conn_clientHandshake_calls ∧
+    "Conn.SetReadDeadline" ∉ O4.Facts.Obfs4.obfs4Conn_clientHandshake_calls ∧
+    "Conn.SetDeadline" ∈ O4.Facts.Obfs4.obfs4Conn_serverHandshake_calls := by
+  decide
+
 end C02
